@@ -501,4 +501,5 @@ def build_extra():
     # queue events held by other parts of the core: the ball_ending event is held until every game mode has stopped
     # (C11's ModeController contracts), queue_relay_player holds and releases one queue event per relay
     from . import C11
-    return [c01, C11.mode_controller_set("C02m"), relay_player_set()]
+    # the priority suffix of an event string ('name.N', negative N included) gets its meaning in one parser (C01's set)
+    return [c01, C11.mode_controller_set("C02m"), relay_player_set(), C01.parse_set("C02p")]
